@@ -89,6 +89,7 @@ type Target struct {
 	Elems   bool   // base is a slice expression: all elements (or the single element Index)
 	Index   Expr   // non-nil: the single element base[Index]
 	Ghost   bool
+	Chan    bool // "chan path": the ghost send log of the channel
 	// quantified over elements: Base contains EIndex with index EIdent{"*"}
 }
 
@@ -514,6 +515,15 @@ func parseTarget(s string) (Target, error) {
 	if strings.HasPrefix(s, "ghost ") {
 		t.Ghost = true
 		s = strings.TrimSpace(s[6:])
+	}
+	if strings.HasPrefix(s, "chan ") {
+		t.Chan = true
+		e, err := parseExprString(strings.TrimSpace(s[5:]))
+		if err != nil {
+			return t, err
+		}
+		t.Base = e
+		return t, nil
 	}
 	e, err := parseExprString(s)
 	if err != nil {
